@@ -166,3 +166,42 @@ func (w *VerifC18Wired) RemoteHandshake(ip net.IP, port int, nonce uint64, withV
 	}
 	return buf.Bytes(), nil
 }
+
+// AddAddress hands one more address to the server's address manager (what OnAddr / DNS seeding do).
+// Returns false when AddAddresses did not return within the bound (the manager's mutex is held for ever).
+func (w *VerifC18Wired) AddAddress(b VerifC18BookEntry, bound time.Duration) bool {
+	done := make(chan struct{})
+	go func() {
+		src := wire.NewNetAddressIPPort(net.IPv4(45, 200, 1, 1), 8333, wire.SFspv)
+		na := wire.NewNetAddressIPPort(b.IP, uint16(b.Port), wire.SFspv)
+		w.s.addrManager.AddAddresses([]*wire.NetAddress{na}, src)
+		if b.Recent {
+			w.s.addrManager.Attempt(na)
+		}
+		close(done)
+	}()
+	select {
+	case <-done:
+		return true
+	case <-time.After(bound):
+		return false
+	}
+}
+
+// AddrMgrResponds reports whether a call that needs the address manager's mutex returns within the bound.
+func (w *VerifC18Wired) AddrMgrResponds(bound time.Duration) bool {
+	done := make(chan struct{})
+	go func() { _ = w.s.addrManager.NeedMoreAddresses(); close(done) }()
+	select {
+	case <-done:
+		return true
+	case <-time.After(bound):
+		return false
+	}
+}
+
+// AddrCounts returns the address manager's counters (nTried, nNew) beside the number of addresses its
+// tried / new tables really hold and the size of its index; ok = false while its mutex is held.
+func (w *VerifC18Wired) AddrCounts() (nTried, nNew, inTried, inNew, index int, ok bool) {
+	return w.s.addrManager.VerifC18Counts()
+}
